@@ -112,72 +112,87 @@ def _positive_root(r):
 
 
 def o2_cpp(ctx):
+    """Closest-point kernels of EdgeCpp, interpreted on a symbolic edge (a, b) and point p; comparisons and np.sign are decided at one
+    rational sample point per region (before a / between / beyond b) x (left / on / right of the line), so every branch combination is
+    explored and the symbolic result of each region is compared with the geometric specification:
+        tt = (b-a).(p-a)/|b-a|^2;   line point = a + tt (b-a);   clamped parameter in [0, 1];
+        signed distance = n.(p - line point) between the ends, sgn * |p - end point| outside, sgn = sign of n.(p - line point), sign(0) = +1."""
     rule = "O2/T5-closest-point"
+    from fractions import Fraction as F
+    from optilint.tensoreval import Interp, sum_d
     mod = ctx.need_module(EC)
-    A = Algebra()
-    # line parameter formula in cpp_line and cpp
-    for fname in ("cpp_line", "cpp"):
+    names = ("ax", "ay", "bx", "by", "px", "py")
+    a = [Dual(_A.atom("ax")), Dual(_A.atom("ay"))]
+    b = [Dual(_A.atom("bx")), Dual(_A.atom("by"))]
+    p = [Dual(_A.atom("px")), Dual(_A.atom("py"))]
+    v = [b[0] - a[0], b[1] - a[1]]
+    vv = v[0] * v[0] + v[1] * v[1]
+    tt = (v[0] * (p[0] - a[0]) + v[1] * (p[1] - a[1])) / vv
+    line = [a[0] + tt * v[0], a[1] + tt * v[1]]
+    edge = Arr([a[0], a[1], b[0], b[1]], (2, 2))
+    pa = Arr(list(p), (2,))
+    # regions: (label, t, d) with p = A + t (B - A) + d * (1, -2) for A = (0,0), B = (2,1)
+    regions = [("before-a,right", -1, 1), ("before-a,left", -1, -1), ("before-a,on-line", -1, 0), ("between,right", F(1, 2), 1), ("between,left", F(1, 2), -1),
+               ("beyond-b,right", 2, 1), ("beyond-b,left", 2, -1)]
+
+    def sample(t, d):
+        return dict(zip(names, (F(0), F(0), F(2), F(1), F(2) * t + d, F(1) * t - 2 * d)))
+
+    def interp(env):
+        I = Interp(ctx.repo)
+
+        def pol(dr):
+            try:
+                val = _A.eval(dr, env)
+            except (KeyError, ZeroDivisionError, ValueError):
+                return None
+            return val
+        I.policy = pol
+        return I
+
+    def eq(x, y):
+        return _A.equal(I_num(x).a, I_num(y).a)
+
+    def I_num(x):
+        return x if isinstance(x, Dual) else Dual(x)
+    for fname in ("cpp_line", "cpp", "cpp_distance"):
         sc = ctx.need(f"{EC}:{fname}")
-        cfg = cfg_of(sc)
-        tdefs = [n for n in cfg.nodes if n.kind == "stmt" and isinstance(n.ast, ast.Assign) and src(n.ast.targets[0]) == "t"]
-        if not tdefs:
-            ctx.undecided(rule, sc, None, construct=f"{fname}:parameter", detail="no definition of the line parameter")
-            continue
-        e = expand(cfg, tdefs[0], tdefs[0].ast.value)
-        edge, p = sc.params()
-        ok = same(e, f"-dot({edge}[1] - {edge}[0], {edge}[0] - {p}) / norm_squared({edge}[1] - {edge}[0])")
-        ctx.decide(rule, ok, sc, tdefs[0].ast, construct=f"{fname}:line-parameter", detail="t = -v.(a-p)/v.v with v = b-a",
-                   bad_detail=f"{fname}: line parameter is `{src(e)}`, expected -dot(b-a, a-p)/norm_squared(b-a)")
-        r = cfg.returns()
-        if r and isinstance(r[0].ast.value, ast.Tuple):
-            pt = expand(cfg, r[0], r[0].ast.value.elts[0], stop=("t",))
-            okp = same(pt, f"(1.0 - t)*{edge}[0] + t*{edge}[1]")
-            ctx.decide(rule, okp, sc, r[0].ast, construct=f"{fname}:point-on-segment", detail="point = (1-t) a + t b",
-                       bad_detail=f"{fname}: returned point is `{src(pt)}`, not (1-t)*a + t*b")
-        if fname == "cpp":
-            clamps = tdefs[1:]
-            forms = set()
-            for n in clamps:
-                v = n.ast.value
-                if isinstance(v, ast.Call) and (dotted(v.func) or "").endswith("where") and isinstance(v.args[0], ast.Compare):
-                    c = v.args[0]
-                    forms.add((type(c.ops[0]).__name__, const_value(c.comparators[0]), const_value(v.args[1]), src(v.args[2])))
-            want = {("Lt", 0.0, 0.0, "t"), ("Gt", 1.0, 1.0, "t")}
-            ctx.decide(rule, forms == want, sc, clamps[0].ast if clamps else None, construct="cpp:clamped-to-[0,1]",
-                       detail="t < 0 -> 0, t > 1 -> 1", bad_detail=f"cpp clamps the parameter as {sorted(forms)}; expected t<0 -> 0 and t>1 -> 1")
-    # cpp_distance pairing
-    sc = ctx.need(f"{EC}:cpp_distance")
-    cfg = cfg_of(sc)
-    edge, p = sc.params()
-    pairs = []
-    for n in cfg.nodes:
-        if n.kind == "stmt" and isinstance(n.ast, ast.Assign) and isinstance(n.ast.value, ast.Call) and (dotted(n.ast.value.func) or "").endswith("where") \
-                and isinstance(n.ast.value.args[0], ast.Compare) and src(n.ast.value.args[0].left) == "t":
-            c = n.ast.value.args[0]
-            val = n.ast.value.args[1]
-            idxs = [const_value(w.slice) for w in ast.walk(val) if isinstance(w, ast.Subscript) and src(w.value) == edge]
-            pairs.append((type(c.ops[0]).__name__, const_value(c.comparators[0]), idxs, n))
-    got = {(op, cv, tuple(ix)) for (op, cv, ix, n) in pairs}
-    want = {("Lt", 0.0, (0,)), ("Gt", 1.0, (1,))}
-    ctx.decide(rule, got == want, sc, pairs[0][3].ast if pairs else None, construct="cpp_distance:end-point-pairing",
-               detail="t < 0 uses the first end point, t > 1 the second",
-               bad_detail=f"cpp_distance pairs the parameter tests with end points as {sorted(got)}; expected t<0 -> edge[0], t>1 -> edge[1]")
-    for (op, cv, ix, n) in pairs:
-        val = n.ast.value.args[1]
-        k = ix[0] if ix else "?"
-        ok = same(val, f"np.sqrt(norm_squared({edge}[{k}] - {p})) * sgn") and src(n.ast.value.args[2]) == "dist"
-        ctx.decide(rule, ok, sc, n.ast, construct=f"cpp_distance:end-point-{k}-distance", detail="|end point - p| with the sign of the normal component",
-                   bad_detail=f"`{src(n.ast)[:100]}` is not sign * Euclidean distance to end point {k}")
-    # sign handling: sgn = sign(dist); zero -> 1
-    sg = [n for n in cfg.nodes if n.kind == "stmt" and isinstance(n.ast, ast.Assign) and src(n.ast.targets[0]) == "sgn"]
-    ok = len(sg) == 2 and same(sg[0].ast.value, "np.sign(dist)") and same(sg[1].ast.value, "np.where(sgn == 0, 1.0, sgn)")
-    ctx.decide(rule, ok, sc, sg[0].ast if sg else None, construct="cpp_distance:sign", detail="sign of the normal component, zero mapped to +1",
-               bad_detail="the sign of the distance is not sign(normal component) with zero mapped to +1")
-    # interior distance: normal component
-    d0 = [n for n in cfg.nodes if n.kind == "stmt" and isinstance(n.ast, ast.Assign) and src(n.ast.targets[0]) == "dist"]
-    ok = bool(d0) and same(expand(cfg, d0[0], d0[0].ast.value, stop=("cppPoint",)), f"dot(Surface.compute_normal({edge}), {p} - cppPoint)")
-    ctx.decide(rule, ok, sc, d0[0].ast if d0 else None, construct="cpp_distance:interior-distance", detail="normal component of p - closest point on the line",
-               bad_detail="interior distance is not dot(normal, p - closest point)")
+        for (lab, t, d) in regions:
+            env = sample(F(t), F(d))
+            I = interp(env)
+            cons = f"{fname}[{lab}]"
+            try:
+                out = I.call(I.module_value(mod, fname), [edge, pa], {})
+                if fname == "cpp_distance":
+                    nrm = I.call(I.module_value(ctx.need_module("optimism.Surface"), "compute_normal"), [edge], {})
+                    dline = nrm.data[0] * (p[0] - line[0]) + nrm.data[1] * (p[1] - line[1])
+                    sg = 1 if d >= 0 else -1
+                    if t < 0 or t > 1:
+                        end = a if t < 0 else b
+                        from optilint.tensoreval import d_fun
+                        want = Dual(sg) * d_fun("sqrt", (p[0] - end[0]) * (p[0] - end[0]) + (p[1] - end[1]) * (p[1] - end[1]))
+                    else:
+                        want = dline
+                    got = I.num(out)
+                    ok = _A.equal(got.a, want.a)
+                    shown = f"{got.a!r}"[:120]
+                    spec = ("sign(n.(p - line point)) * |p - " + ("a" if t < 0 else "b") + "|") if (t < 0 or t > 1) else "n.(p - line point)"
+                else:
+                    pt, tpar = out[0], I.num(out[1])
+                    if fname == "cpp_line" or 0 <= t <= 1:
+                        wp, wt = line, tt
+                    elif t < 0:
+                        wp, wt = a, Dual(0)
+                    else:
+                        wp, wt = b, Dual(1)
+                    ok = isinstance(pt, Arr) and pt.shape == (2,) and _A.equal(pt.data[0].a, wp[0].a) and _A.equal(pt.data[1].a, wp[1].a) and _A.equal(tpar.a, wt.a)
+                    shown = f"point {pt!r}, parameter {tpar.a!r}"[:160]
+                    spec = "a + tt (b - a), tt = (b-a).(p-a)/|b-a|^2" if (fname == "cpp_line" or 0 <= t <= 1) else ("end point " + ("a, parameter 0" if t < 0 else "b, parameter 1"))
+            except (EvalError, Raised, KeyError, IndexError, TypeError, AttributeError, ZeroDivisionError) as ex:
+                ctx.undecided(rule, sc, None, construct=cons, detail=f"cannot interpret: {ex}")
+                continue
+            ctx.decide(rule, ok, sc, None, construct=cons, detail=f"symbolic result equals {spec}",
+                       bad_detail=f"{fname} for a point {lab.replace(',', ', ')} of the segment returns {shown}; expected {spec}")
 
 
 def _depends(cfg, node, expr, names):
@@ -225,17 +240,25 @@ def o3_levelset(ctx):
     sc = ctx.need(f"{PC}:compute_edge_penalty_contact_energy")
     cfg = cfg_of(sc)
     r = cfg.returns()
-    e = expand(cfg, r[0], r[0].ast.value, stop=("lsetField", "edgeCoords")) if r else None
+    e = expand(cfg, r[0], r[0].ast.value) if r else None
     ok = False
     if e is not None:
-        ok = same(e, "stiffness * Surface.integrate_values(quadRule, edgeCoords, np.square(np.minimum(0.0, lsetField)))") or \
-            same(e, "stiffness * Surface.integrate_values(quadRule, edgeCoords, np.square(np.minimum(lsetField, 0.0)))")
+        lv_, me_, di_, qu_, ed_, st_ = sc.params()
+        ec_ = f"Surface.eval_field({me_}.coords, Surface.get_field_index({ed_}, {me_}.conns))"
+        pts_ = f"QuadratureRule.eval_at_iso_points({qu_}.xigauss, {ec_} + Surface.eval_field({di_}, Surface.get_field_index({ed_}, {me_}.conns)))"
+        ok = same(e, f"{st_} * Surface.integrate_values({qu_}, {ec_}, np.square(np.minimum(0.0, {lv_}({pts_}))))") or \
+            same(e, f"{st_} * Surface.integrate_values({qu_}, {ec_}, np.square(np.minimum({lv_}({pts_}), 0.0)))")
     ctx.decide("O3/T8-penalty-integrand", ok, sc, r[0].ast if r else None, construct="penalty=stiffness*int(min(0,phi)^2)",
                detail="square of the negative part, reference edge weights, times stiffness",
                bad_detail=f"penalty energy is `{src(e)[:140] if e is not None else '?'}`; expected stiffness * integral of square(minimum(0, levelset))")
     iv = ctx.need("optimism.Surface:integrate_values")
-    txt = src(iv.node)
-    ok = "jac = np.linalg.norm(coords[0, :] - coords[1, :])" in txt and "dx = jac * wgauss" in txt and "return dx.dot(gaussField)" in txt
+    from .common import Unifier
+    ui = Unifier(iv)
+    q_, c_, g_ = iv.params()
+    tup_ = [s_ for s_ in iv.node.body if isinstance(s_, ast.Assign) and isinstance(s_.targets[0], ast.Tuple)]
+    ok = len(tup_) == 1 and ui.match(tup_[0], ast.parse(f"_, wgauss = {q_}").body[0]) and \
+        len(ui.assigns(f"np.linalg.norm({c_}[0, :] - {c_}[1, :])", target="jac")) == 1 and len(ui.assigns("jac * wgauss", target="dx")) == 1 and \
+        len(iv.returns()) == 1 and ui.match(iv.returns()[0], f"dx.dot({g_})")
     ctx.decide("O3/T8-penalty-integrand", ok, iv, None, construct="integrate_values:nonneg-weights", detail="weights = edge length * Gauss weights",
                bad_detail="Surface.integrate_values does not integrate with (edge length * Gauss weights)")
     # vmapped totals pass the roles through
@@ -388,11 +411,7 @@ def o4_mortar(ctx):
         raise Incomplete("integrate_with_active_mortar has no return")
     ps = sc.params()
     xiA, xiB, g, lA, lB, fn, sm = ps
-    e = expand(cfg, r[0], r[0].ast.value, stop=(xiA, xiB, g))
-    txt = src(e)
-    # weights
-    wa = expand(cfg, r[0], ast.Name(id="quadWeightA", ctx=ast.Load()), stop=(xiA, xiB))
-    wb = expand(cfg, r[0], ast.Name(id="quadWeightB", ctx=ast.Load()), stop=(xiA, xiB))
+    e = expand(cfg, r[0], r[0].ast.value)
     rule_deg = None
     for c in ast.walk(sc.node):
         if isinstance(c, ast.Call) and (dotted(c.func) or "").endswith("create_quadrature_rule_1D"):
@@ -401,25 +420,34 @@ def o4_mortar(ctx):
                     rule_deg = const_value(k.value)
             if c.args:
                 rule_deg = const_value(c.args[0])
-    q = "QuadratureRule.create_quadrature_rule_1D(degree=2).wgauss"
-    okA = same(wa, f"{lA} * (smooth_linear({xiA}, {sm})[1] - smooth_linear({xiA}, {sm})[0]) * {q}")
-    okB = same(wb, f"{lB} * jnp.abs(smooth_linear({xiB}, {sm})[1] - smooth_linear({xiB}, {sm})[0]) * {q}")
-    ctx.decide(rule, okA, sc, None, construct="weight-A", detail="lengthA * (smooth(xiA)[1] - smooth(xiA)[0]) * w",
-               bad_detail=f"side-A weights are `{src(wa)[:140]}`")
-    ctx.decide(rule, okB, sc, None, construct="weight-B", detail="lengthB * |smooth(xiB)[1] - smooth(xiB)[0]| * w",
-               bad_detail=f"side-B weights are `{src(wb)[:140]}`")
+    Q = "QuadratureRule.create_quadrature_rule_1D(degree=2)"
+    # the fully expanded return must be dot(0.5*(wA + wB), vmap(f)(xiA_q, xiB_q, g_q)); names of temporaries play no role
+    W = F_ = None
+    if isinstance(e, ast.Call) and (dotted(e.func) or "").endswith("dot") and len(e.args) == 2:
+        W, F_ = e.args
+    wa = wb = None
+    if isinstance(W, ast.BinOp) and isinstance(W.op, ast.Mult):
+        for x_, y_ in ((W.left, W.right), (W.right, W.left)):
+            if const_value(x_) == 0.5 and isinstance(y_, ast.BinOp) and isinstance(y_.op, ast.Add):
+                wa, wb = y_.left, y_.right
+    ctx.decide(rule, wa is not None, sc, r[0].ast, construct="average-of-both-sides", detail="dot(0.5*(wA + wB), f(xiA_q, xiB_q, g_q))",
+               bad_detail=f"mortar integral is `{src(e)[:160]}`, not dot(0.5*(weights of side A + weights of side B), integrand values)")
+    tA = f"{lA} * (smooth_linear({xiA}, {sm})[1] - smooth_linear({xiA}, {sm})[0]) * {Q}.wgauss"
+    tB = f"{lB} * jnp.abs(smooth_linear({xiB}, {sm})[1] - smooth_linear({xiB}, {sm})[0]) * {Q}.wgauss"
+    if wa is not None and not same(wa, tA) and same(wb, tA):
+        wa, wb = wb, wa
+    ctx.decide(rule, wa is not None and same(wa, tA), sc, None, construct="weight-A", detail="lengthA * (smooth(xiA)[1] - smooth(xiA)[0]) * w",
+               bad_detail=f"side-A weights are `{src(wa)[:140] if wa is not None else '?'}`")
+    ctx.decide(rule, wb is not None and same(wb, tB), sc, None, construct="weight-B", detail="lengthB * |smooth(xiB)[1] - smooth(xiB)[0]| * w",
+               bad_detail=f"side-B weights are `{src(wb)[:140] if wb is not None else '?'}`")
     ctx.decide(rule, rule_deg == 2, sc, None, construct="gauss-rule-degree", detail="two-point Gauss rule (degree 2)", bad_detail=f"edge quadrature degree is {rule_deg}")
-    v = r[0].ast.value
-    ok = isinstance(v, ast.Call) and (dotted(v.func) or "").endswith("dot") and same(v.args[0], "0.5*(quadWeightA+quadWeightB)") and \
-        same(v.args[1], f"jax.vmap({fn})(quadXiA, quadXiB, gs)")
-    ctx.decide(rule, ok, sc, v, construct="average-of-both-sides", detail="dot(0.5*(wA + wB), f(xiA_q, xiB_q, g_q))",
-               bad_detail=f"mortar integral is `{src(v)[:140]}`")
     # quadrature parameters interpolate the same fields linearly
-    for nm, fld in (("quadXiA", xiA), ("quadXiB", xiB), ("gs", g)):
-        d = [n for n in cfg.nodes if n.kind == "stmt" and isinstance(n.ast, ast.Assign) and src(n.ast.targets[0]) == nm]
-        ok = len(d) == 1 and same(expand(cfg, d[0], d[0].ast.value, stop=(fld,)), f"jax.vmap(eval_linear_field_on_edge, (None, 0))({fld}, QuadratureRule.create_quadrature_rule_1D(degree=2).xigauss)")
-        ctx.decide(rule, ok, sc, d[0].ast if d else None, construct=f"{nm}:linear-interpolation-of-{fld}", detail=f"{nm} interpolates {fld} at the Gauss points",
-                   bad_detail=f"{nm} is not the linear interpolation of {fld} at the Gauss points")
+    args_ = F_.args if isinstance(F_, ast.Call) and isinstance(F_.func, ast.Call) and (dotted(F_.func.func) or "").endswith("vmap") \
+        and F_.func.args and same(F_.func.args[0], fn) and len(F_.args) == 3 else [None, None, None]
+    for a_, fld, nm in zip(args_, (xiA, xiB, g), ("quadXiA", "quadXiB", "gs")):
+        ok = a_ is not None and same(a_, f"jax.vmap(eval_linear_field_on_edge, (None, 0))({fld}, {Q}.xigauss)")
+        ctx.decide(rule, ok, sc, None, construct=f"{nm}:linear-interpolation-of-{fld}", detail=f"argument interpolates {fld} at the Gauss points",
+                   bad_detail=f"the integrand's argument for {fld} is `{src(a_)[:120] if a_ is not None else '?'}`, not the linear interpolation of {fld} at the Gauss points")
     el = ctx.need(f"{MC}:eval_linear_field_on_edge")
     rr = el.returns()
     A = Algebra()
